@@ -515,6 +515,7 @@ class CoBoot:
         try:
             yield from gen
         except (lib + (Exception,)) as e:
+            __import__('vf.h').h.reraise_if_harness(e)
             self.crashed[name] = f"{type(e).__name__}: {e}"
 
     def restore(self):
